@@ -55,6 +55,12 @@ def _case(draw):
     sel = draw(st.lists(st.integers(0, D - 1), min_size=1, max_size=D, unique=True))
     route = draw(st.sampled_from(['rfi', 'rfi', 'rfi_mef', 'rfi_mef', 'transform']))
     form = 'list'
+    lin = [j for j in sel if pne[j] == '0,0']
+    if lin and route in ('rfi', 'rfi_mef') and draw(st.integers(0, 4)) == 0:
+        # a linear channel named twice (e.g. scatter + fluorescence lists that overlap).  Whatever a conversion does with
+        # the repetition, limits and events must stay in step.  (Not drawn for log amplifiers -- applying 10^x twice
+        # overflows -- nor for the generic transform, which the statement does not cover.)
+        sel = sel + [draw(st.sampled_from(lin))]
     if len(sel) == 1 and draw(st.booleans()):
         form = 'scalar'                       # one channel given bare: 0, -1, 'FSC-H'
     elif draw(st.integers(0, 24)) == 0:
@@ -129,6 +135,9 @@ def check(case, obs):
         return
     raw = np.asarray(d)
     tv = np.asarray(t)
+    from pbt.samples import fingerprint as _fp, fp_diff as _fpd
+    moved = [f for f in _fpd(_fp(d), _fp(t)) if f not in ('data', 'range', 'kind', 'itemsize')]
+    obs.claim('unconverted', not moved, lambda: 'the conversion changed more than events and limits: %r' % moved)
     log_or_mef = False
     both = False
     for j in range(D):
